@@ -64,9 +64,9 @@ def predict (w : World) : Call → Res
     | none => .err "ENOENT"
   | .fstatat d n =>
     match (w.dirPath d).bind fun p => w.lookup p n with
-    | some _ => .ok 0
+    | some fid => .ok (w.mtime fid)
     | none => .err "ENOENT"
-  | .utimensat d n =>
+  | .utimensat d n _ _ =>
     match (w.dirPath d).bind fun p => w.lookup p n with
     | some _ => .ok 0
     | none => .err "ENOENT"
